@@ -91,15 +91,25 @@ func FingerprintRoot(sb *strings.Builder, rb *cm.RootBlock, o FPOpts) {
 }
 
 func FingerprintNode(sb *strings.Builder, source []byte, n cm.Node, depth int) {
+	var num [24]byte
+	span := func(sp cm.Span) {
+		sb.WriteByte('[')
+		sb.Write(strconv.AppendInt(num[:0], int64(sp.Start), 10))
+		sb.WriteByte(',')
+		sb.Write(strconv.AppendInt(num[:0], int64(sp.End), 10))
+		sb.WriteByte(')')
+	}
 	WalkTree(n, func(n, _ cm.Node, d, _ int) {
 		for i := 0; i < depth+d; i++ {
 			sb.WriteByte(' ')
 		}
 		sp := n.Span()
 		if b := n.Block(); b != nil {
-			fmt.Fprintf(sb, "%s[%d,%d)", b.Kind(), sp.Start, sp.End)
+			sb.WriteString(b.Kind().String())
+			span(sp)
 			if l := b.HeadingLevel(); l != 0 {
-				fmt.Fprintf(sb, " h%d", l)
+				sb.WriteString(" h")
+				sb.Write(strconv.AppendInt(num[:0], int64(l), 10))
 			}
 			if b.IsOrderedList() {
 				sb.WriteString(" ord")
@@ -107,19 +117,26 @@ func FingerprintNode(sb *strings.Builder, source []byte, n cm.Node, depth int) {
 			if b.IsTightList() {
 				sb.WriteString(" tight")
 			}
-			if num := safeItemNumber(b, source); num != -1 {
-				fmt.Fprintf(sb, " n=%d", num)
+			if b.Kind() == cm.ListItemKind || b.IsOrderedList() {
+				if nn := safeItemNumber(b, source); nn != -1 {
+					sb.WriteString(" n=")
+					sb.Write(strconv.AppendInt(num[:0], int64(nn), 10))
+				}
 			}
 			if is := b.InfoString(); is != nil {
-				fmt.Fprintf(sb, " info=%q", safeText(is, source))
+				sb.WriteString(" info=")
+				sb.WriteString(strconv.Quote(safeText(is, source)))
 			}
 		} else if in := n.Inline(); in != nil {
-			fmt.Fprintf(sb, "%s[%d,%d)", in.Kind(), sp.Start, sp.End)
+			sb.WriteString(in.Kind().String())
+			span(sp)
 			if w := in.IndentWidth(); w != 0 {
-				fmt.Fprintf(sb, " w=%d", w)
+				sb.WriteString(" w=")
+				sb.Write(strconv.AppendInt(num[:0], int64(w), 10))
 			}
 			if r := in.LinkReference(); r != "" {
-				fmt.Fprintf(sb, " ref=%q", r)
+				sb.WriteString(" ref=")
+				sb.WriteString(strconv.Quote(r))
 			}
 			if in.LinkDestination() != nil {
 				sb.WriteString(" +dest")
@@ -128,7 +145,8 @@ func FingerprintNode(sb *strings.Builder, source []byte, n cm.Node, depth int) {
 				sb.WriteString(" +title")
 			}
 			if in.ChildCount() == 0 || in.Kind() == cm.InfoStringKind || in.Kind() == cm.LinkDestinationKind || in.Kind() == cm.LinkTitleKind {
-				fmt.Fprintf(sb, " text=%q", safeText(in, source))
+				sb.WriteString(" text=")
+				sb.WriteString(strconv.Quote(safeText(in, source)))
 			}
 		}
 		sb.WriteByte('\n')
